@@ -93,7 +93,7 @@ class Gen:
 
     ALL = {"str-special", "bigint", "float", "bool", "datetime", "tz", "uri", "qname-value", "lang", "typed-literal", "multi-value",
            "default-ns", "bundle-default-ns", "clash", "bundle", "anon", "repeat-id", "full-uri-name", "qname-object", "foreign-ns",
-           "formal-optional", "prov-attrs", "unregistered-datatype", "empty-string", "odd-prefix", "cr", "default-ns-attr", "prov-subtype"}
+           "formal-optional", "prov-attrs", "unregistered-datatype", "empty-string", "odd-prefix", "cr", "default-ns-attr", "prov-subtype", "prov-like-local"}
 
     def __init__(self, seed, features=None):
         self.rng = random.Random(seed)
@@ -177,6 +177,9 @@ class Gen:
         for _ in range(rng.randint(0, maxn)):
             n = rng.choice(ns)
             name = n[rng.choice(["a", "b", "attr-c", "d_e"])]
+            if self.use(used, "prov-like-local", 0.12):
+                # attribute names of other namespaces whose local part is a PROV attribute's
+                name = n[rng.choice(["role", "type", "label", "plan", "value", "time", "entity", "location"])]
             if n.prefix == "unreg":
                 pass                              # not registered: only usable as a QualifiedName object
             elif self.use(used, "full-uri-name", 0.15):
